@@ -32,7 +32,7 @@ MutProps(ps) ==        \* single-fault mutants of a property list
         <<[ps[1] EXCEPT !.node = NType("boolean")]>> \o Tail(ps)}
 Mutants(n) ==
   IF n.oneOf # <<>>
-    THEN {[n EXCEPT !.oneOf = Tail(n.oneOf)]}
+    THEN (IF Len(n.oneOf) > 1 THEN {[n EXCEPT !.oneOf = Tail(n.oneOf)]} ELSE {})      \* (without any branch left the node would say nothing at all)
          \cup {[n EXCEPT !.oneOf = <<[n.oneOf[1] EXCEPT !.props = m]>> \o Tail(n.oneOf)] : m \in MutProps(n.oneOf[1].props)}
     ELSE {[n EXCEPT !.props = m] : m \in MutProps(n.props)}
 MutantsCaught == x # Nil => \A m \in Mutants(IdealSchema(x)) : ~SchemaMatchesSerde(x, m, RefSamples(x))
